@@ -7,6 +7,7 @@
 -/
 import CRModel.CRXmlWDoc
 import Gen.XsdScenario
+import Gen.PyEnums
 
 namespace CR.C03
 open CR.Xsd CR.XmlNum CR.XmlW
@@ -18,6 +19,39 @@ def acceptsV (type : String) (v : String) : Bool :=
   match simpleOf schema type with
   | some st => st.accepts v.toList
   | none => false
+
+/-- `name` is a member of the enum whose (name, value) table is `tbl` -/
+def memberOf (tbl : List (String × String)) (name : String) : Prop := name ∈ tbl.map (·.1)
+
+instance (tbl : List (String × String)) (name : String) : Decidable (memberOf tbl name) := by unfold memberOf; infer_instance
+
+/-! Enum members whose value the 2020a XSD does not enumerate are not schema-expressible.  For the enums with such members
+the expressible ones are listed here (the same lists drive the generator, harness/c03_gen.py); `C03_enum_partial` and
+`C03_enum_traffic_sign` prove that exactly these are accepted by the schema. -/
+def timeOfDayOk : List String := ["NIGHT", "UNKNOWN"]
+def weatherOk : List String := ["LIGHT_RAIN", "HEAVY_RAIN", "FOG", "SNOW", "HAIL"]
+def undergroundNot : List String := ["UNKNOWN"]
+def staticTypes : List String := ["UNKNOWN", "PARKED_VEHICLE", "CONSTRUCTION_ZONE", "ROAD_BOUNDARY"]
+def dynamicTypes : List String :=
+  ["UNKNOWN", "CAR", "TRUCK", "BUS", "MOTORCYCLE", "BICYCLE", "PEDESTRIAN", "PRIORITY_VEHICLE", "TRAIN", "TAXI"]
+def environmentTypes : List String := ["UNKNOWN", "BUILDING", "PILLAR", "MEDIAN_STRIP"]
+
+/-- traffic-sign members whose value the 2020a XSD does not list (besides every `UNKNOWN`, whose value is "") -/
+def signNotExpressible : List (String × String) :=
+  [("TrafficSignIDArgentina", "MAX_SPEED"), ("TrafficSignIDAustralia", "STOP"), ("TrafficSignIDAustralia", "YIELD"),
+   ("TrafficSignIDBelgium", "MAX_SPEED"), ("TrafficSignIDCroatia", "MAX_SPEED"), ("TrafficSignIDFrance", "MAX_SPEED"),
+   ("TrafficSignIDGreece", "MAX_SPEED"), ("TrafficSignIDRussia", "MAX_SPEED"), ("TrafficSignIDUsa", "STOP"),
+   ("TrafficSignIDUsa", "STOP_4_WAY"), ("TrafficSignIDUsa", "NO_TURN_ON_RED"), ("TrafficSignIDUsa", "ONEWAY"),
+   ("TrafficSignIDGermany", "KEEP_STRAIGHT_AHEAD"), ("TrafficSignIDGermany", "LANE_BOARD_3_LANES_NO_OPPOSITE_WITH_SIGNS"),
+   ("TrafficSignIDGermany", "ADDITION_SCHOOL"), ("TrafficSignIDGermany", "ADDITION_KINDERGARTEN"),
+   ("TrafficSignIDGermany", "ADDITION_RETIREMENT_HOME"), ("TrafficSignIDGermany", "ADDITION_HOSPITAL"),
+   ("TrafficSignIDZamunda", "KEEP_STRAIGHT_AHEAD"), ("TrafficSignIDZamunda", "LANE_BOARD_3_LANES_NO_OPPOSITE_WITH_SIGNS"),
+   ("TrafficSignIDZamunda", "ADDITION_SCHOOL"), ("TrafficSignIDZamunda", "ADDITION_KINDERGARTEN"),
+   ("TrafficSignIDZamunda", "ADDITION_RETIREMENT_HOME"), ("TrafficSignIDZamunda", "ADDITION_HOSPITAL")]
+
+/-- a traffic-sign element the schema can express: a member of its country class, not `UNKNOWN`, not one of the listed ones -/
+def SignElemOk (e : String × String × List String) : Prop :=
+  (signEntry e.1 e.2.1).isSome = true ∧ e.2.1 ≠ "UNKNOWN" ∧ (e.1, e.2.1) ∉ signNotExpressible
 
 /-- the repr of a finite float: plain, or scientific with a lower-case `e` (what Python prints) -/
 def Fin (x : Num) : Prop := isPlainRepr x.repr = true ∨ (isSciRepr x.repr = true ∧ x.repr.contains 'e' = true)
@@ -51,53 +85,76 @@ def PosOk : Pos → Prop
 
 def stateEs (T : String) : List ElemP := elemsOf (schema.content T)
 
-/-- what all four state containers demand of the attribute list: pairwise different element names, all declared by the
-    container type, and the required ones present -/
+/-- what all four state containers (xs:all) demand of the children: pairwise different element names, all declared by the
+    container type, and the required ones present.  DERIVED from the attribute set of the state (`AttrSet`, below) by
+    `shape_of_attrs` (CRProofs/XsdDocA.lean); it is not a hypothesis of the validity theorems. -/
 def StateShape (T : String) (req : List String) (st : List Attr) : Prop :=
   (st.map Attr.name).Nodup ∧ (∀ a ∈ st, a.name ∈ (stateEs T).map (·.name)) ∧ (∀ r ∈ req, r ∈ st.map Attr.name)
 
-/-- a trajectory state: position (point / shapes), orientation etc. exact or interval, time ≥ 1 -/
+/-- the state attributes (Python names, besides position and time_step) whose element the `state` / `initialState` types
+    declare: the fields of InitialState, PMState, KSState, STState, ExtendedPMState, MBState, and the custom attributes
+    curvature(_rate), jerk, jounce.  (`hitch_angle`, `front_wheel_angular_speed`, `rear_wheel_angular_speed` — KSTState,
+    STDState — have no element in the 2020a schema: `C03_state_attrs_declared`.) -/
+def stateAttrs : List String :=
+  ["orientation", "velocity", "acceleration", "yaw_rate", "slip_angle", "steering_angle", "roll_angle", "roll_rate",
+   "pitch_angle", "pitch_rate", "velocity_y", "position_z", "velocity_z", "roll_angle_front", "roll_rate_front",
+   "velocity_y_front", "position_z_front", "velocity_z_front", "roll_angle_rear", "roll_rate_rear", "velocity_y_rear",
+   "position_z_rear", "velocity_z_rear", "left_front_wheel_angular_speed", "right_front_wheel_angular_speed",
+   "left_rear_wheel_angular_speed", "right_rear_wheel_angular_speed", "delta_y_f", "delta_y_r", "curvature", "curvature_rate",
+   "jerk", "jounce"]
+
+/-- attributes of the initial state of a planning problem (`initialStateExact`) and of a goal state -/
+def planningAttrs : List String := ["orientation", "velocity", "acceleration", "yaw_rate", "slip_angle"]
+def goalAttrs : List String := ["orientation", "velocity"]
+
+/-- the attribute set of a state object: the used attributes are pairwise different attributes (keys of `__dict__`) and
+    the required ones are set -/
+def AttrSet (req : List String) (st : List Attr) : Prop :=
+  (st.map Attr.pyName).Nodup ∧ ∀ r ∈ req, r ∈ st.map Attr.pyName
+
+/-- a trajectory state: position (point / shapes), orientation and time are set; the other attributes are among the ones the
+    schema declares, exact or interval; time ≥ 1 -/
 def StateOk (st : List Attr) : Prop :=
-  StateShape "state" ["position", "orientation", "time"] st ∧ ∀ a ∈ st, match a with
+  AttrSet ["position", "orientation", "time_step"] st ∧ ∀ a ∈ st, match a with
     | .position q => PosOk q
     | .time t => TimeOk t
-    | .value n v => xmlProp n ≠ "position" ∧ xmlProp n ≠ "time" ∧ ValOk v
+    | .value n v => n ∈ stateAttrs ∧ ValOk v
 
 /-- the initial state of an obstacle: as a state, but at time step 0 -/
 def InitialStateOk (st : List Attr) : Prop :=
-  StateShape "initialState" ["position", "orientation", "time"] st ∧ ∀ a ∈ st, match a with
+  AttrSet ["position", "orientation", "time_step"] st ∧ ∀ a ∈ st, match a with
     | .position q => PosOk q
     | .time t => t = .exact 0
-    | .value n v => xmlProp n ≠ "position" ∧ xmlProp n ≠ "time" ∧ ValOk v
+    | .value n v => n ∈ stateAttrs ∧ ValOk v
 
 /-- the initial state of a planning problem: an exact point, exact values, time step 0; velocity, orientation, yaw rate
     and slip angle are required -/
 def PlanningInitialStateOk (st : List Attr) : Prop :=
-  StateShape "initialStateExact" ["position", "velocity", "orientation", "yawRate", "slipAngle", "time"] st ∧ ∀ a ∈ st, match a with
+  AttrSet ["position", "velocity", "orientation", "yaw_rate", "slip_angle", "time_step"] st ∧ ∀ a ∈ st, match a with
     | .position q => ∃ pt, q = .point pt ∧ PtOk pt
     | .time t => t = .exact 0
-    | .value n v => xmlProp n ≠ "position" ∧ xmlProp n ≠ "time" ∧ ∃ x, v = .exact x ∧ Fin x
+    | .value n v => n ∈ planningAttrs ∧ ∃ x, v = .exact x ∧ Fin x
 
 /-- a goal state: an interval time, optionally a position (shapes of one kind or lanelets) and interval orientation / velocity -/
 def GoalStateOk (st : List Attr) : Prop :=
-  StateShape "goalState" ["time"] st ∧ ∀ a ∈ st, match a with
+  AttrSet ["time_step"] st ∧ ∀ a ∈ st, match a with
     | .position q => PosOk q ∧ ∀ pt, q ≠ .point pt
     | .time t => ∃ a b, t = .interval a b ∧ 0 ≤ a ∧ 1 ≤ b
-    | .value n v => xmlProp n ≠ "position" ∧ xmlProp n ≠ "time" ∧ ∃ a b, v = .interval a b ∧ Fin a ∧ Fin b
+    | .value n v => n ∈ goalAttrs ∧ ∃ a b, v = .interval a b ∧ Fin a ∧ Fin b
 
 def OccOk (o : Occ) : Prop := ShapeOk o.shape ∧ TimeOk o.t
 
 def StaticOk (o : StaticObs) : Prop :=
-  1 ≤ o.id ∧ acceptsV "obstacleTypeStatic" o.type = true ∧ ShapeOk o.shape ∧ InitialStateOk o.init
+  1 ≤ o.id ∧ o.type ∈ staticTypes ∧ ShapeOk o.shape ∧ InitialStateOk o.init
 
-def EnvObsOk (o : EnvObs) : Prop := 1 ≤ o.id ∧ acceptsV "obstacleTypeEnvironment" o.type = true ∧ ShapeOk o.shape
+def EnvObsOk (o : EnvObs) : Prop := 1 ≤ o.id ∧ o.type ∈ environmentTypes ∧ ShapeOk o.shape
 
 /-- a phantom obstacle has a (non-empty) set-based prediction -/
 def PhantomOk (o : PhantomObs) : Prop := 1 ≤ o.id ∧ ∃ os, o.occ = some os ∧ os ≠ [] ∧ ∀ x ∈ os, OccOk x
 
 /-- a dynamic obstacle: a prediction is required; the initial signal state is at step 0, the series at steps ≥ 1 -/
 def DynOk (o : DynObs) : Prop :=
-  1 ≤ o.id ∧ acceptsV "obstacleTypeDynamic" o.type = true ∧ ShapeOk o.shape ∧ InitialStateOk o.init ∧
+  1 ≤ o.id ∧ o.type ∈ dynamicTypes ∧ ShapeOk o.shape ∧ InitialStateOk o.init ∧
   (∀ s, o.sig0 = some s → s.t = 0) ∧
   (match o.pred with
    | .none => False
@@ -108,20 +165,20 @@ def DynOk (o : DynObs) : Prop :=
 def PtsOk (pts : List Pt) : Prop := ∀ q ∈ pts, PtOk q
 
 def StopOk (s : StopLineD) : Prop :=
-  (∀ a b, s.pts = some (a, b) → PtOk a ∧ PtOk b) ∧ ∃ v, s.marking = some v ∧ acceptsV "lineMarking" v = true
+  (∀ a b, s.pts = some (a, b) → PtOk a ∧ PtOk b) ∧ ∃ m, s.marking = some m ∧ memberOf CR.Py.Gen.lineMarking m
 
 def LaneletOk (l : LaneletD) : Prop :=
   1 ≤ l.id ∧ 2 ≤ l.left.length ∧ PtsOk l.left ∧ 2 ≤ l.right.length ∧ PtsOk l.right ∧
-  (∀ v, l.lmLeft = some v → acceptsV "lineMarking" v = true) ∧ (∀ v, l.lmRight = some v → acceptsV "lineMarking" v = true) ∧
-  (∀ s, l.stop = some s → StopOk s) ∧ (∀ v ∈ l.types, acceptsV "laneletType" v = true) ∧
-  (∀ v ∈ l.oneWay, acceptsV "vehicleType" v = true) ∧ (∀ v ∈ l.bidir, acceptsV "vehicleType" v = true)
+  memberOf CR.Py.Gen.lineMarking l.lmLeft ∧ memberOf CR.Py.Gen.lineMarking l.lmRight ∧
+  (∀ s, l.stop = some s → StopOk s) ∧ (∀ v ∈ l.types, memberOf CR.Py.Gen.laneletType v) ∧
+  (∀ v ∈ l.oneWay, memberOf CR.Py.Gen.roadUser v) ∧ (∀ v ∈ l.bidir, memberOf CR.Py.Gen.roadUser v)
 
 def SignOk (s : SignD) : Prop :=
-  1 ≤ s.id ∧ s.elements ≠ [] ∧ (∀ e ∈ s.elements, acceptsV "trafficSignID" e.1 = true) ∧ (∀ q, s.pos = some q → PtOk q)
+  1 ≤ s.id ∧ s.elements ≠ [] ∧ (∀ e ∈ s.elements, SignElemOk e) ∧ (∀ q, s.pos = some q → PtOk q)
 
 def LightOk (l : LightD) : Prop :=
-  1 ≤ l.id ∧ (∃ es off, l.cycle = some (es, off) ∧ es ≠ [] ∧ ∀ e ∈ es, 1 ≤ e.1 ∧ acceptsV "trafficLightColor" e.2 = true) ∧
-  (∀ q, l.pos = some q → PtOk q) ∧ (∀ v, l.direction = some v → acceptsV "trafficLight/direction" v = true)
+  1 ≤ l.id ∧ (∃ es off, l.cycle = some (es, off) ∧ es ≠ [] ∧ ∀ e ∈ es, 1 ≤ e.1 ∧ memberOf CR.Py.Gen.trafficLightState e.2) ∧
+  (∀ q, l.pos = some q → PtOk q) ∧ memberOf CR.Py.Gen.trafficLightDirection l.direction
 
 def IncomingOk (i : IncomingD) : Prop := 1 ≤ i.id ∧ i.lanelets ≠ []
 
@@ -133,17 +190,17 @@ def ProblemOk (q : ProblemD) : Prop :=
 def GeoOk (g : GeoD) : Prop := Fin g.x ∧ Fin g.y ∧ Fin g.rot ∧ PosNum g.scale
 
 def EnvOk (e : EnvD) : Prop :=
-  e.hours < 24 ∧ e.minutes < 60 ∧ acceptsV "timeOfDay" e.timeOfDay = true ∧ acceptsV "weather" e.weather = true ∧
-  acceptsV "underground" e.underground = true
+  e.hours < 24 ∧ e.minutes < 60 ∧ e.timeOfDay ∈ timeOfDayOk ∧ e.weather ∈ weatherOk ∧
+  (memberOf CR.Py.Gen.underground e.underground ∧ e.underground ∉ undergroundNot)
 
 def LocationOk (l : LocationD) : Prop :=
   Fin l.lat ∧ Fin l.lon ∧ (∀ g, l.geo = some g → GeoOk g) ∧ (∀ e, l.env = some e → EnvOk e)
 
-/-- a set of tags the `tag` type declares -/
-def TagsOk (tags : List String) : Prop := tags.Nodup ∧ ∀ t ∈ tags, t ∈ (stateEs "tag").map (·.name)
+/-- a set of `Tag` members -/
+def TagsOk (tags : List String) : Prop := tags.Nodup ∧ ∀ t ∈ tags, memberOf CR.Py.Gen.tag t
 
 def HeaderOk (d : DocD) : Prop :=
-  Fin d.dt ∧ acceptsV "/commonRoad/@commonRoadVersion" d.version = true ∧ isDate d.date.toList = true
+  Fin d.dt ∧ isDate d.date.toList = true
 
 /-- **schema-expressible document**: header, location, tags and every object are expressible, and there is at least one
     lanelet and one planning problem -/
@@ -265,6 +322,8 @@ instance (q : CR.XmlW.Pos) : Decidable (PosOk q) := by
 instance (T : String) (req : List String) (st : List Attr) : Decidable (StateShape T req st) := by
   unfold StateShape; infer_instance
 
+instance (req : List String) (st : List Attr) : Decidable (AttrSet req st) := by unfold AttrSet; infer_instance
+
 instance timeZeroDec (t : TimeV) : Decidable (t = .exact 0) :=
   match t with
   | .exact i => if h : i = 0 then isTrue (by rw [h]) else isFalse (by intro hh; cases hh; exact h rfl)
@@ -304,7 +363,7 @@ instance (st : List Attr) : Decidable (StateOk st) := by
   have : ∀ a : Attr, Decidable (match a with
     | .position q => PosOk q
     | .time t => TimeOk t
-    | .value n v => xmlProp n ≠ "position" ∧ xmlProp n ≠ "time" ∧ ValOk v) := by
+    | .value n v => n ∈ stateAttrs ∧ ValOk v) := by
     intro a; cases a <;> (dsimp only; infer_instance)
   infer_instance
 
@@ -313,7 +372,7 @@ instance (st : List Attr) : Decidable (InitialStateOk st) := by
   have : ∀ a : Attr, Decidable (match a with
     | .position q => PosOk q
     | .time t => t = .exact 0
-    | .value n v => xmlProp n ≠ "position" ∧ xmlProp n ≠ "time" ∧ ValOk v) := by
+    | .value n v => n ∈ stateAttrs ∧ ValOk v) := by
     intro a; cases a <;> (dsimp only; infer_instance)
   infer_instance
 
@@ -322,7 +381,7 @@ instance (st : List Attr) : Decidable (PlanningInitialStateOk st) := by
   have : ∀ a : Attr, Decidable (match a with
     | .position q => ∃ pt, q = .point pt ∧ PtOk pt
     | .time t => t = .exact 0
-    | .value n v => xmlProp n ≠ "position" ∧ xmlProp n ≠ "time" ∧ ∃ x, v = .exact x ∧ Fin x) := by
+    | .value n v => n ∈ planningAttrs ∧ ∃ x, v = .exact x ∧ Fin x) := by
     intro a; cases a <;> (dsimp only; infer_instance)
   infer_instance
 
@@ -331,7 +390,7 @@ instance (st : List Attr) : Decidable (GoalStateOk st) := by
   have : ∀ a : Attr, Decidable (match a with
     | .position q => PosOk q ∧ ∀ pt, q ≠ .point pt
     | .time t => ∃ a b, t = .interval a b ∧ 0 ≤ a ∧ 1 ≤ b
-    | .value n v => xmlProp n ≠ "position" ∧ xmlProp n ≠ "time" ∧ ∃ a b, v = .interval a b ∧ Fin a ∧ Fin b) := by
+    | .value n v => n ∈ goalAttrs ∧ ∃ a b, v = .interval a b ∧ Fin a ∧ Fin b) := by
     intro a; cases a <;> (dsimp only; infer_instance)
   infer_instance
 
@@ -352,6 +411,7 @@ instance (o : DynObs) : Decidable (DynOk o) := by
 instance (pts : List Pt) : Decidable (PtsOk pts) := by unfold PtsOk; infer_instance
 instance (s : StopLineD) : Decidable (StopOk s) := by unfold StopOk; infer_instance
 instance (l : LaneletD) : Decidable (LaneletOk l) := by unfold LaneletOk; infer_instance
+instance (e : String × String × List String) : Decidable (SignElemOk e) := by unfold SignElemOk; infer_instance
 instance (s : SignD) : Decidable (SignOk s) := by unfold SignOk; infer_instance
 instance (l : LightD) : Decidable (LightOk l) := by unfold LightOk; infer_instance
 instance (i : IncomingD) : Decidable (IncomingOk i) := by unfold IncomingOk; infer_instance
